@@ -322,7 +322,16 @@ func (r *renderer) expr(e Expr, min int) []Tok {
 			if i > 0 {
 				out = append(out, r.punct("，"))
 			}
-			out = append(out, Tok{S: quoteStr(v.Keys[i]), K: TStr}, sym("="))
+			if i < len(v.Bare) && v.Bare[i] {
+				// a bare key: an identifier or a number, whose text is the key
+				if _, err := strconv.ParseFloat(v.Keys[i], 64); err == nil {
+					out = append(out, Tok{S: v.Keys[i], K: TNum}, sym("="))
+				} else {
+					out = append(out, r.nameTok(v.Keys[i]), sym("="))
+				}
+			} else {
+				out = append(out, Tok{S: quoteStr(v.Keys[i]), K: TStr}, sym("="))
+			}
 			// inside 【】 the = sign separates key and value: an assignment value must be braced
 			r.mapCtx++
 			out = append(out, r.expr(v.Vals[i], lvOr)...)
